@@ -24,10 +24,17 @@ type scen struct {
 	Def world.SiteDef `json:"site"`
 	Opt world.Options `json:"options"`
 	P   int           `json:"p"`
+	// Stop: a stop request (the real stop order) is a thread of the scenario: every deviation places it
+	// somewhere in the run; a seed that is still reported finished around it must have its records written
+	Stop bool `json:"stop,omitempty"`
 }
 
 func (s *scen) name() string {
-	return fmt.Sprintf("%s w%d a%d", s.Def.Name, s.Opt.Workers, s.Opt.MaxConcurrentAssets)
+	n := fmt.Sprintf("%s w%d a%d", s.Def.Name, s.Opt.Workers, s.Opt.MaxConcurrentAssets)
+	if s.Stop {
+		n += " +stop"
+	}
+	return n
 }
 
 func scenario(s *scen) *vsched.Scenario {
@@ -42,13 +49,26 @@ func scenario(s *scen) *vsched.Scenario {
 	}
 	sc.Body = func() {
 		w.Start()
+		if s.Stop {
+			go func() { // stop request: after the drain by default, every deviation moves it earlier
+				vsched.Point("h:stop requested", nil)
+				w.Stop()
+			}()
+		}
 		for i, u := range s.Def.Seeds {
 			if err := w.Insert(fmt.Sprintf("seed%d", i), u); err != nil {
+				if s.Stop {
+					return // frozen reactor
+				}
 				panic(err)
 			}
 		}
 	}
-	sc.Done = func(x *vsched.Exec) bool { return w.FinishedCount() >= len(s.Def.Seeds) }
+	if !s.Stop {
+		sc.Done = func(x *vsched.Exec) bool { return w.FinishedCount() >= len(s.Def.Seeds) }
+	} else {
+		sc.OKEnds = []string{vsched.EndQuiescent, vsched.EndDeadlock, vsched.EndDone, vsched.EndHorizon}
+	}
 	sc.Idle = world.IsIdlePoint
 	sc.Horizon = 30 * time.Minute
 	sc.DelayBounding = true
@@ -69,7 +89,7 @@ func scenario(s *scen) *vsched.Scenario {
 
 // oracle: C02's ordering clause on one execution.
 func oracle(s *scen, w *world.World) error {
-	if len(w.Finished) != len(s.Def.Seeds) {
+	if len(w.Finished) != len(s.Def.Seeds) && !s.Stop {
 		return fmt.Errorf("not-finished: %d of %d seeds finished", len(w.Finished), len(s.Def.Seeds))
 	}
 	// which seed owns which URL (reference trees; shared URLs are judged for whoever fetched them, at the end)
@@ -186,6 +206,10 @@ func scenarios(tier string) []scen {
 			}
 			out = append(out, scen{Def: d, Opt: opt, P: p})
 		}
+	}
+	// the same ordering clause around a stop request
+	for _, d := range defs[:4] {
+		out = append(out, scen{Def: d, Opt: world.Options{Workers: 1, MaxConcurrentAssets: 1, MaxRetry: 1, MaxRedirect: 2}, P: P - 1, Stop: true})
 	}
 	return out
 }
